@@ -1,5 +1,6 @@
-(* Proofs/ParseAcc.v — after a nil error every offset stored in the Frame is within the length (outside the
-   recorded short-VLAN class), hence every accessor is panic-free and returns the input from its offset to its end. *)
+(* Proofs/ParseAcc.v — after a nil error every offset stored in the Frame is within the length (for every
+   slice, after the repair of the short tagged header), hence every accessor is panic-free and returns the input
+   from its offset to its end. *)
 From PV Require Import Base.Prelude Base.Slice Model.Parse Spec.RFC Model.ParseKnown Proofs.Parse.
 Open Scope N_scope.
 Open Scope res_scope.
@@ -67,45 +68,39 @@ Proof.
   end. all: leaf.
 Qed.
 
-Lemma parse_leaf_post s f id : wf s -> (14 <= len s)%nat -> k_vlan_short (view s) = false ->
+(* HeaderLen is 14, 18 or 22 *)
+Lemma parse_leaf_post s f id hl0 : wf s -> (14 <= len s)%nat ->
+  ether_header_len s = Ok hl0 -> (hl0 <= len s)%nat ->
   offs_ok (len s) f -> post (offs_ok (len s)) (parse_leaf s f id).
 Proof.
-  intros Hwf H Hk Hf. unfold parse_leaf, ether_header_len, ether_type. rd. cbn [bind].
-  unfold k_vlan_short in Hk. rewrite (view_length s Hwf) in Hk. unfold word_at in Hk.
-  rewrite !view_nth in Hk by lia.
-  change (12 + 1)%nat with 13%nat in *.
-  set (et := be16 (nth 12 (arr s) 0) (nth 13 (arr s) 0)) in *.
-  destruct (Nat.leb_spec 14 (len s)); [|lia]. cbn [andb] in Hk.
-  destruct ((et =? 2048) || (et =? 34525) || (et =? 2054)); [leaf|].
-  destruct (et =? 33024); [destruct (Nat.ltb_spec (len s) 18); [discriminate|leaf]|].
-  destruct (et =? 34984); [destruct (Nat.ltb_spec (len s) 22); [discriminate|leaf]|].
-  leaf.
+  intros Hwf H Hh Hl Hf. unfold parse_leaf. rewrite Hh. cbn [bind]. leaf.
 Qed.
 
-Theorem parse_offsets_partial c s :
-  wf s -> k_vlan_short (view s) = false -> post (offs_ok (len s)) (parse c s).
+Theorem parse_offsets c s : wf s -> post (offs_ok (len s)) (parse c s).
 Proof.
-  intros Hwf Hk. unfold parse, ether_is_valid.
+  intros Hwf. unfold parse, ether_is_valid.
   destruct (Nat.leb_spec 14 (len s)) as [Hlen|Hlen]; cbn [bind]; [|leaf].
-  pose proof (parse_leaf_post s (mkFrame 0 0 0 0 0 0 (mkAddr [] [] 0) (mkAddr [] [] 0) None None) 0 Hwf Hlen Hk) as HL.
-  unfold parse_leaf in HL.
-  unfold ether_src, ether_dst, ether_header_len, ether_type, bytes_at in *.
-  revert HL. repeat (rd; cbn [bind]). change (12 + 1)%nat with 13%nat.
+  unfold ether_src, ether_dst, bytes_at.
+  repeat (rd; cbn [bind]).
+  destruct (ether_header_len s) as [hl| | |] eqn:Hh; cbn [bind]; try exact I.
+  destruct (Nat.ltb_spec (len s) hl) as [Hs|Hhl]; [exact I|].
+  assert (Het : ether_type s = Ok (be16 (nth 12 (arr s) 0) (nth 13 (arr s) 0))).
+  { unfold ether_type. rd. reflexivity. }
+  rewrite Het. cbn [bind].
   set (et := be16 (nth 12 (arr s) 0) (nth 13 (arr s) 0)) in *.
-  intros HL. match type of HL with _ -> post _ (Ok (set_offP _ ?h)) => assert (Hhl : (h <= len s)%nat) end.
-  { cbn [post] in HL. unfold offs_ok in HL. cbn in HL. apply HL. lia. }
-  clear HL.
+  assert (H14 : et = 2048 \/ et = 34525 \/ et = 2054 -> hl = 14%nat).
+  { intros HE. unfold ether_header_len in Hh. rewrite Het in Hh. cbn [bind] in Hh. fold et in Hh.
+    destruct HE as [E|[E|E]]; rewrite E in Hh; vm_compute in Hh; congruence. }
   destruct (is_unicast_mac _) eqn:Hu; cbn [negb]; [|leaf].
   destruct (et <? 1536); [leaf|].
   destruct (N.eqb_spec et 2048) as [E1|E1].
-  { apply parse_ip4_post; auto. }
+  { apply parse_ip4_post; auto; cbn [f_offP]; auto. }
   destruct (N.eqb_spec et 34525) as [E2|E2].
-  { apply parse_ip6_post; auto. }
+  { apply parse_ip6_post; auto; cbn [f_offP]; auto. }
   destruct (N.eqb_spec et 2054) as [E3|E3].
-  { apply parse_arp_post; auto. leaf. }
-  cbn [orb] in *.
+  { apply parse_arp_post; auto; cbn [f_offP]; auto; leaf. }
   repeat match goal with |- context [if ?c then _ else _] => destruct c end;
-    try (leaf; fail); (apply parse_leaf_post; auto; leaf).
+    try (leaf; fail); (apply (parse_leaf_post s _ _ hl); auto; leaf).
 Qed.
 
 (* every accessor after a nil error: no panic, and the view is the input from [off] to its end *)
@@ -118,12 +113,12 @@ Proof.
   right. exists off. split; [exact H|]. rewrite slfrom_ok by lia. reflexivity.
 Qed.
 
-Theorem frame_accessors_safe_partial c s f :
-  wf s -> k_vlan_short (view s) = false -> parse c s = Ok f ->
+Theorem frame_accessors_safe c s f :
+  wf s -> parse c s = Ok f ->
   acc_inside s (frame_ether s f) /\ acc_inside s (frame_ip4 s f) /\ acc_inside s (frame_ip6 s f) /\
   acc_inside s (frame_udp s f) /\ acc_inside s (frame_tcp s f) /\ acc_inside s (frame_payload s f).
 Proof.
-  intros Hwf Hk Hp. pose proof (parse_offsets_partial c s Hwf Hk) as H. rewrite Hp in H. cbn [post] in H.
+  intros Hwf Hp. pose proof (parse_offsets c s Hwf) as H. rewrite Hp in H. cbn [post] in H.
   destruct H as (H4 & H6 & HU & HT & HP).
   repeat split; try (apply acc_at_inside; assumption).
   right. exists 0%nat. split; [lia|]. unfold frame_ether. rewrite Nat.sub_0_r. destruct s; reflexivity.
@@ -131,6 +126,6 @@ Qed.
 
 Example frame_accessors_safe_nonvacuous :
   let s := of_bytes ex_arp28 in
-  wf s /\ k_vlan_short (view s) = false /\ exists f, parse cfg0 s = Ok f /\
+  wf s /\ exists f, parse cfg0 s = Ok f /\
   frame_payload s f = Ok (Some (mkSlice (skipn 14 (arr s)) 28)).
-Proof. cbv zeta. split; [vm_compute; lia|]. split; [vm_compute; reflexivity|]. eexists. split; vm_compute; reflexivity. Qed.
+Proof. cbv zeta. split; [vm_compute; lia|]. eexists. split; vm_compute; reflexivity. Qed.
